@@ -174,7 +174,7 @@ def incl_case(rng, root):
         for nm in names:
             if rng.random() < 0.65 or d == 'after':
                 lines = []
-                style = rng.choice(['plain', 'guard', 'guard', 'pragma-once', 'guard-trailing-text', 'guard-else', 'guard-undef', 'guard-not-first'])
+                style = rng.choice(['plain', 'guard', 'guard', 'pragma-once', 'guard-trailing-text', 'guard-else', 'guard-elif', 'guard-inner-cond', 'guard-undef', 'guard-not-first'])
                 gname = 'G_%s_%s' % (d.upper(), nm.replace('.', '_').upper())
                 body = [mark('%s/%s' % (d, nm))]
                 if rng.random() < 0.35:
@@ -202,6 +202,12 @@ def incl_case(rng, root):
                 elif style == 'guard-else':
                     lines = ['#ifndef ' + gname, '#define ' + gname] + body + ['#else', mark('%s/%s_else' % (d, nm)), '#endif']
                     feats.add('guard-with-else-branch')
+                elif style == 'guard-elif':
+                    lines = ['#ifndef ' + gname, '#define ' + gname] + body + [rng.choice(['#elif 1', '#elif defined(%s)' % gname, '#elif 0']), mark('%s/%s_elif' % (d, nm)), '#endif']
+                    feats.add('guard-with-elif-branch')
+                elif style == 'guard-inner-cond':
+                    lines = ['#ifndef ' + gname, '#define ' + gname, '#if 0', mark('%s/%s_inner_if' % (d, nm)), rng.choice(['#else', '#elif 1']), mark('%s/%s_inner_else' % (d, nm)), '#endif'] + body + ['#endif']
+                    feats.add('guard-with-inner-conditional')
                 elif style == 'guard-undef':
                     lines = ['#ifndef ' + gname, '#define ' + gname] + body + ['#endif']
                     feats.add('guard-undefined-later')
